@@ -18,6 +18,7 @@ package main
 import (
 	"bytes"
 	"fmt"
+	"hash/fnv"
 	"io"
 	"runtime"
 	"strconv"
@@ -741,6 +742,19 @@ func (c *c08Case) peerClose(A erpc.Peer) {
 
 var c08CaseNo int64
 
+// c08Ages derives the two peers' DefaultContextAge from the case line: none / closing side / both.
+func c08Ages(line string) (time.Duration, time.Duration) {
+	h := fnv.New32a()
+	h.Write([]byte(line))
+	switch h.Sum32() % 3 {
+	case 1:
+		return time.Hour, 0
+	case 2:
+		return time.Hour, time.Hour
+	}
+	return 0, 0
+}
+
 func c08Run(line string, out *hx.Out) (obs string, nontrivial bool) {
 	_, f := hx.Fields(line)
 	n, _ := strconv.Atoi(f["n"])
@@ -753,8 +767,12 @@ func c08Run(line string, out *hx.Out) (obs string, nontrivial bool) {
 		}
 	}()
 	no := atomic.AddInt64(&c08CaseNo, 1)
-	A := erpc.NewPeer(erpc.PeerConfig{})
-	B := erpc.NewPeer(erpc.PeerConfig{})
+	// configuration diversity (seed C08-D): a context age that never expires within a case must not
+	// change anything; which side gets one is a function of the case line, so a replay reproduces it
+	ageA, ageB := c08Ages(line)
+	out.Count(fmt.Sprintf("ctxage:%v/%v", ageA > 0, ageB > 0))
+	A := erpc.NewPeer(erpc.PeerConfig{DefaultContextAge: ageA})
+	B := erpc.NewPeer(erpc.PeerConfig{DefaultContextAge: ageB})
 	A.RouteCall(new(C08x))
 	B.RouteCall(new(C08x))
 	B.RoutePush(new(C08p))
